@@ -213,6 +213,51 @@ func shapeBlocked(iter int) {
 	sOther.Unsubscribe()
 }
 
+// shape R5: a crowd. Thresholds far outside the small scope of the exploration (here: more than 2048
+// subscribers) are reached by one scripted history: a Send is blocked on two unbuffered subscribers
+// while most of the 2100 already-served buffered subscribers leave; then one of the two receives and the
+// other unsubscribes. The Send must return and report exactly the deliveries it made.
+func shapeCrowd(iter int) {
+	var f event.Feed
+	const crowd = 2100
+	chs := make([]chan int, crowd)
+	subs := make([]event.Subscription, crowd)
+	for i := range chs {
+		chs[i] = make(chan int, 1)
+		subs[i] = f.Subscribe(chs[i])
+	}
+	w1, w2 := make(chan int), make(chan int)
+	s1, s2 := f.Subscribe(w1), f.Subscribe(w2)
+	done := make(chan int, 1)
+	go func() { done <- f.Send(7) }()
+	for _, c := range chs { // wait until the crowd has been served (the Send is then blocked on w1, w2)
+		for len(c) == 0 {
+			runtime.Gosched()
+		}
+	}
+	for i := 0; i < 1700; i++ {
+		subs[i].Unsubscribe()
+	}
+	if v := <-w1; v != 7 {
+		failf("crowd#%d: w1 received %d", iter, v)
+	}
+	s2.Unsubscribe()
+	select {
+	case n := <-done:
+		if n != crowd+1 {
+			failf("crowd#%d: Send reported %d deliveries, %d were made", iter, n, crowd+1)
+		}
+	case v := <-w2:
+		failf("crowd#%d: value %d delivered on w2 after its Unsubscribe had returned", iter, v)
+	case <-time.After(30 * time.Second):
+		failf("crowd#%d: Send still blocked 30 s after its last waiting subscriber unsubscribed", iter)
+	}
+	s1.Unsubscribe()
+	for i := 1700; i < crowd; i++ {
+		subs[i].Unsubscribe()
+	}
+}
+
 type evA int
 type evB string
 
@@ -284,6 +329,15 @@ func TestRaceFree(t *testing.T) {
 		}
 	}
 	wg.Wait()
+	crowds := 3
+	if os.Getenv("VERIF_TIER") == "thorough" {
+		crowds = 40
+	}
+	for i := 0; i < crowds; i++ {
+		shapeCrowd(i)
+	}
+	res.Iterations["crowd"] = crowds
+	res.Shapes++
 	res.Failures = fails
 	res.WallS = time.Since(t0).Seconds()
 	if p := os.Getenv("VERIF_RACE_OUT"); p != "" {
